@@ -1,3 +1,5 @@
+//go:build fam_tsssigning || fam_all
+
 package main
 
 import "vdrive/fam_tsssigning"
